@@ -27,6 +27,7 @@ class Tracked {
   Tracked(Tracked&& o) noexcept : _id{o.Read("move-from")} {
     LedgerCtor(this, _id);
     LedgerMovedFrom(&o);
+    o.WriteSource();
   }
   Tracked& operator=(const Tracked& o) {
     _id = o.Read("copy-assign-from");
@@ -38,6 +39,7 @@ class Tracked {
     Revive();
     if (&o != this) {
       LedgerMovedFrom(&o);
+      o.WriteSource();
     }
     return *this;
   }
@@ -68,6 +70,11 @@ class Tracked {
       Fail("ledger:use-after-move", "%s of moved-from tracked object %d", what, _id);
     }
     return _id;
+  }
+  // Like every real movable type (string, vector, unique_ptr, exception_ptr) a move modifies its source: a plain
+  // write the happens-before monitor sees, so "moved out while somebody else still reads" is a race for values too.
+  void WriteSource() noexcept {
+    *const_cast<volatile int*>(&_id) = _id;
   }
   void Revive() {
     // assignment gives a moved-from object a value again
